@@ -112,7 +112,7 @@ def _val(c, ty):
 
 
 class Site:
-    __slots__ = ("bb", "term", "callee", "args", "value", "arg_tys", "span", "fn", "mut_effects", "raw")
+    __slots__ = ("bb", "term", "callee", "args", "value", "arg_tys", "span", "fn", "mut_effects", "raw", "alt_callees")
 
     def __repr__(self):
         return "<Site %s bb%d %s>" % (self.fn.key, self.bb, self.callee[0] if self.callee else "?")
@@ -567,6 +567,7 @@ class Eval:
         k = t["k"]
         if k == "call" or k == "tailcall":
             site = Site()
+            site.alt_callees = None
             site.fn = fn
             site.bb = b
             site.raw = t
@@ -614,8 +615,28 @@ class Eval:
                     site.value = val
             if not c and "callee_indirect" in t:
                 # call through a function value: constructors and known functions are resolved
-                val = self._indirect_value(self.value_of(ind, st), args, where, val)
+                fvv = self.value_of(ind, st)
+                val = self._indirect_value(fvv, args, where, val)
                 site.value = val
+                while fvv.op == "cast" or fvv.op in ("ref", "deref"):
+                    fvv = fvv.a[1] if fvv.op == "cast" else fvv.a[0]
+                alts = list(fvv.a[0]) if fvv.op == "phi" else [fvv]
+                ids = []
+                for a_ in alts:
+                    while a_.op == "cast" or a_.op in ("ref", "deref"):
+                        a_ = a_.a[1] if a_.op == "cast" else a_.a[0]
+                    if a_.op == "const" and a_.a[0] == "fn" and not (len(a_.a) > 2 and a_.a[2]):
+                        ids.append(a_.a[1])
+                    else:
+                        ids = None
+                        break
+                if ids:
+                    site.alt_callees = ids
+                    if len(ids) == 1:
+                        # a single known function: the site reads like a direct call
+                        site.callee = ids[0]
+                        nm = ids[0][0]
+                        site.raw = dict(t, callee={"key": nm, "path": nm, "name": nm.split("::")[-1], "trait": nm.split("::")[0] if "::" in nm and not nm.startswith("<") else None, "local": True, "args": list(ids[0][1]), "synthetic": True})
             if k == "call":
                 self.write_place(t["dest"], val, st)
         elif k == "switch":
